@@ -10,6 +10,7 @@ import (
 	"github.com/insomniacslk/dhcp/dhcpv4"
 	"github.com/insomniacslk/dhcp/iana"
 	"verif/harness/ref4"
+	"verif/harness/reflabel"
 )
 
 // Boundary lengths around every 255-byte split point and the ends of the domain.
@@ -354,8 +355,33 @@ func Packet(r *rand.Rand, maxOpts int) (*dhcpv4.DHCPv4, *ref4.P4) {
 		if code == 61 && r.IntN(3) != 0 {
 			v = ClientID(r, byte(p.HWType), hw)
 		}
+		if code == 119 && r.IntN(2) == 0 { // a search list as servers send it: names, compressed or not (RFC 3397)
+			switch r.IntN(4) {
+			case 0:
+				v = reflabel.ManyPointers(r)
+			case 1:
+				v = reflabel.Web(r)
+			case 2:
+				v = []byte{3, 'e', 'n', 'g', 7, 'e', 'x', 'a', 'm', 'p', 'l', 'e', 3, 'o', 'r', 'g', 0, 3, 'l', 'a', 'b', 0xC0, 4, 0xC0, 0}
+			default:
+				v = reflabel.Encode([]string{"example.org", "corp.example.org"})
+			}
+		}
 		p.Options[code] = v
 		e.Opts[code] = append([]byte{}, v...)
+	}
+	if maxOpts > 0 && r.IntN(10) == 0 {
+		// the clients there are: their vendor class identifiers, as whole values, with seconds fields as such clients
+		// write them (multiples of 256 are what a byte-order slip looks like)
+		ci := []string{"MSFT 5.0", "MSFT 98", "udhcp 1.36.1", "android-dhcp-13", "dhcpcd-9.4.1:Linux-6.1:x86_64", "Cisco Systems, Inc. IP Phone", "docsis3.0:"}[r.IntN(7)]
+		p.Options[60], e.Opts[60] = []byte(ci), []byte(ci)
+		if r.IntN(2) == 0 {
+			p.NumSeconds = []uint16{0x0100, 0x0300, 0xff00, 0x0001, 0x8000}[r.IntN(5)]
+			e.Secs = p.NumSeconds
+		}
+		if r.IntN(2) == 0 {
+			p.OpCode, e.Op = dhcpv4.OpcodeBootRequest, 1
+		}
 	}
 	if maxOpts > 0 && r.IntN(8) == 0 {
 		// a PXE client/server: class identifier "PXEClient...", vendor-specific information (43) made of PXE tags
